@@ -46,7 +46,9 @@ func (fr *Frame) atAnchors(st *State, ins ssa.Instruction, after bool, extra map
 				}
 			}
 			if len(exposed) > 0 {
+				af.liftFrom = fr
 				af.atAnchorsNamed(st, ins, after, extra, exposed)
+				af.liftFrom = nil
 			}
 		}
 		return
@@ -947,6 +949,51 @@ func (fr *Frame) appendOp(st *State, c *ssa.CallCommon, args []Val, pos token.Po
 }
 
 // spawn handles `go f(...)`.
+// closedBySpawned: the channels (terms in the spawner's state) that the body of callee closes,
+// where the channel is a parameter or a captured variable of callee.
+func (fr *Frame) closedBySpawned(st *State, callee *ssa.Function, args, binds []Val) []string {
+	r := fr.r
+	var out []string
+	for _, b := range callee.Blocks {
+		for _, ins := range b.Instrs {
+			var cc *ssa.CallCommon
+			switch x := ins.(type) {
+			case *ssa.Call:
+				cc = &x.Call
+			case *ssa.Defer:
+				cc = &x.Call
+			}
+			if cc == nil || len(cc.Args) != 1 {
+				continue
+			}
+			if bi, ok := cc.Value.(*ssa.Builtin); !ok || bi.Name() != "close" {
+				continue
+			}
+			switch a := cc.Args[0].(type) {
+			case *ssa.Parameter:
+				for i, p := range callee.Params {
+					if p == a && i < len(args) && args[i].S != "" {
+						out = append(out, args[i].S)
+					}
+				}
+			case *ssa.UnOp:
+				if fv, ok := a.X.(*ssa.FreeVar); ok && a.Op == token.MUL {
+					for i, f := range callee.FreeVars {
+						if f == fv && i < len(binds) {
+							bv := binds[i]
+							bv.T = fv.Type()
+							if lv := r.load(st, bv); lv.K != KInvalid && lv.S != "" {
+								out = append(out, lv.S)
+							}
+						}
+					}
+				}
+			}
+		}
+	}
+	return out
+}
+
 func (fr *Frame) spawn(st *State, in *ssa.Go) {
 	r := fr.r
 	c := &in.Call
@@ -994,6 +1041,12 @@ func (fr *Frame) spawn(st *State, in *ssa.Go) {
 	fr.atAnchors(st, in, false, extra)
 	if callee != nil {
 		name = r.eng.funcName(callee)
+		// a channel the new goroutine closes (directly, or in a deferred call) may be closed at any
+		// later point of this function: from here on a receive from it may fail to deliver a value
+		// whatever this function itself knows about the channel
+		for _, chv := range fr.closedBySpawned(st, callee, args, binds) {
+			r.volChans = append(r.volChans, [2]string{st.pc, chv})
+		}
 	}
 	r.spawned[name] = true
 	fc := r.eng.cs.Funcs[name]
